@@ -295,6 +295,7 @@ impl<M: Manager, W: From<Object<M>>> Pool<M, W> {
                     vec: VecDeque::with_capacity(builder.config.max_size),
                     size: 0,
                     max_size: builder.config.max_size,
+                    debt: 0,
                 }),
                 users: AtomicUsize::new(0),
                 semaphore: Semaphore::new(builder.config.max_size),
@@ -337,22 +338,39 @@ impl<M: Manager, W: From<Object<M>>> Pool<M, W> {
             None => false,
         };
 
+        // A permit obtained while permits are still owed to a previous
+        // shrink of the pool is retired and another one is requested.
         let permit = if non_blocking {
-            self.inner.semaphore.try_acquire().map_err(|e| match e {
-                TryAcquireError::Closed => PoolError::Closed,
-                TryAcquireError::NoPermits => PoolError::Timeout(TimeoutType::Wait),
-            })?
+            loop {
+                let permit = self.inner.semaphore.try_acquire().map_err(|e| match e {
+                    TryAcquireError::Closed => PoolError::Closed,
+                    TryAcquireError::NoPermits => PoolError::Timeout(TimeoutType::Wait),
+                })?;
+                if self.inner.settle_debt() {
+                    permit.forget();
+                } else {
+                    break permit;
+                }
+            }
         } else {
             apply_timeout(
                 self.inner.runtime,
                 TimeoutType::Wait,
                 timeouts.wait,
                 async {
-                    self.inner
-                        .semaphore
-                        .acquire()
-                        .await
-                        .map_err(|_| PoolError::Closed)
+                    loop {
+                        let permit = self
+                            .inner
+                            .semaphore
+                            .acquire()
+                            .await
+                            .map_err(|_| PoolError::Closed)?;
+                        if self.inner.settle_debt() {
+                            permit.forget();
+                        } else {
+                            break Ok::<_, PoolError<M::Error>>(permit);
+                        }
+                    }
                 },
             )
             .await?
@@ -491,13 +509,20 @@ impl<M: Manager, W: From<Object<M>>> Pool<M, W> {
         slots.max_size = max_size;
         // shrink pool
         if max_size < old_max_size {
+            // Take one permit out of circulation for every slot removed.
+            // Permits which are in use right now are booked as debt and
+            // retired when they are granted the next time.
+            for _ in 0..(old_max_size - max_size) {
+                match self.inner.semaphore.try_acquire() {
+                    Ok(permit) => permit.forget(),
+                    Err(_) => slots.debt += 1,
+                }
+            }
+            // Release surplus idle objects
             while slots.size > slots.max_size {
-                if let Ok(permit) = self.inner.semaphore.try_acquire() {
-                    permit.forget();
-                    if let Some(mut obj) = slots.vec.pop_front() {
-                        slots.size -= 1;
-                        self.inner.manager.detach(&mut obj.obj);
-                    }
+                if let Some(mut obj) = slots.vec.pop_front() {
+                    slots.size -= 1;
+                    self.inner.manager.detach(&mut obj.obj);
                 } else {
                     break;
                 }
@@ -513,7 +538,10 @@ impl<M: Manager, W: From<Object<M>>> Pool<M, W> {
         if max_size > old_max_size {
             let additional = slots.max_size - old_max_size;
             slots.vec.reserve_exact(additional);
-            self.inner.semaphore.add_permits(additional);
+            // Permits still owed to a previous shrink are cancelled first
+            let cancelled = additional.min(slots.debt);
+            slots.debt -= cancelled;
+            self.inner.semaphore.add_permits(additional - cancelled);
         }
     }
 
@@ -655,6 +683,9 @@ struct Slots<T> {
     vec: VecDeque<T>,
     size: usize,
     max_size: usize,
+    /// Number of permits which still have to be taken out of circulation
+    /// because the pool was shrunk while they were in use.
+    debt: usize,
 }
 
 // Implemented manually to avoid unnecessary trait bound on the struct.
@@ -691,9 +722,21 @@ impl<M: Manager> PoolInner<M> {
         } else {
             slots.size -= 1;
             drop(slots);
+            self.semaphore.add_permits(1);
             #[cfg(deadpool_verif)]
             crate::verif::point("return.detach");
             self.manager.detach(&mut inner.obj);
+        }
+    }
+    /// Pays off one permit of the debt left behind by a shrink of the pool.
+    /// Returns `false` if there is no debt.
+    fn settle_debt(&self) -> bool {
+        let mut slots = self.slots.lock().unwrap();
+        if slots.debt > 0 {
+            slots.debt -= 1;
+            true
+        } else {
+            false
         }
     }
     fn detach_object(&self, obj: &mut M::Type) {
@@ -701,14 +744,11 @@ impl<M: Manager> PoolInner<M> {
         #[cfg(deadpool_verif)]
         crate::verif::point("take.lock");
         let mut slots = self.slots.lock().unwrap();
-        let add_permits = slots.size <= slots.max_size;
         slots.size -= 1;
         drop(slots);
-        if add_permits {
-            #[cfg(deadpool_verif)]
-            crate::verif::point("take.add_permits");
-            self.semaphore.add_permits(1);
-        }
+        #[cfg(deadpool_verif)]
+        crate::verif::point("take.add_permits");
+        self.semaphore.add_permits(1);
         #[cfg(deadpool_verif)]
         crate::verif::point("take.detach");
         self.manager.detach(obj);
